@@ -266,6 +266,30 @@ def state_reads(mod, fn, depth=3):
     return out
 
 
+def from_module_state(mod, fn, node, depth=4):
+    """does the value of expression `node` (used in function fn) come out of module-level state that the module mutates?  Follows names
+    back through every assignment to them in fn (tuple unpacking included).  Returns (state name, assignment statement) or None."""
+    ms = module_state(mod)
+    if not ms:
+        return None
+    seen = set()
+
+    def walk(e, d):
+        for x in ast.walk(e):
+            if isinstance(x, ast.Name) and isinstance(x.ctx, ast.Load):
+                if x.id in ms and not any(isinstance(a, ast.arg) and a.arg == x.id for a in ast.walk(fn.args)):
+                    return x.id, containing_stmt(x)
+                if d > 0 and x.id not in seen:
+                    seen.add(x.id)
+                    for st in ast.walk(fn):
+                        if isinstance(st, ast.Assign) and any(isinstance(t, ast.Name) and t.id == x.id for tt in st.targets for t in ast.walk(tt)):
+                            r = walk(st.value, d - 1)
+                            if r is not None:
+                                return r
+        return None
+    return walk(node, depth)
+
+
 # --------------------------------------------------------------------------------------------------
 # helper inlining: a rule written against one function body keeps working when part of that body is extracted into a
 # same-module helper (the commonest behaviour-preserving refactoring).  Purely syntactic, conservative: anything not understood is
@@ -809,6 +833,19 @@ def normalise_loops(fn):
         for c in ast.iter_child_nodes(n_):
             c._parent = n_
     return fn
+
+
+def if_else_parts(fn, test_text):
+    """(if statement, then-body, else-body) of the top-level 'if <test_text>:' of a function, in either spelling:
+    'if c: A  else: B'   or   'if c: A; return ...' followed by B (the rest of the function).  None when there is no such if."""
+    for n, st in enumerate(fn.body):
+        if isinstance(st, ast.If) and src(st.test) == test_text:
+            if st.orelse:
+                return st, list(st.body), list(st.orelse)
+            if _always_returns(st.body):
+                return st, list(st.body), list(fn.body[n + 1:])
+            return st, list(st.body), []
+    return None
 
 
 def merge_subscripts(node):
